@@ -318,7 +318,8 @@ def invariants(case, r):
 class C13(ModelCheck):
     prop = PROP
     rule = (
-        "schedules of 2-5 tasks (service calls) each running a program of {task.unique(name, kill_me), task.sleep(d), "
+        "bounded-exhaustive: every pair (quick) / triple (thorough) of two-step programs over {unique(n1), unique(n1, kill_me), unique(n2), sleep} x "
+        "every assignment of start instants from {same instant, 1 s later}; random: schedules of 3-5 tasks (service calls) each running a program of {task.unique(name, kill_me), task.sleep(d), "
         "raise, finish} over 3 names and 2 global contexts, started at generated instants (distinct per-task offsets, or "
         "identical instants for same-instant contention), optionally a @task_unique-decorated service and a "
         "task.unique call issued from a task not started by pyscript; on the virtual clock, both subsystems. Oracle: "
@@ -335,6 +336,27 @@ class C13(ModelCheck):
 
     def gen(self, R):
         return gen(R)
+
+    def exhaustive_cases(self, tier):
+        """Bounded-exhaustive schedules: k tasks in one context, each running every program of two steps from a small
+        alphabet followed by a sleep, with every assignment of start instants from {same instant, 1 s later} (the
+        first task always at 0) - k = 2 in quick, k = 3 in thorough - in the new subsystem; legacy for a third."""
+        import itertools
+
+        alphabet = [["unique", "n1", False], ["unique", "n1", True], ["unique", "n2", False], ["sleep", 1.0]]
+        progs = [list(p) for p in itertools.product(alphabet, repeat=2)]
+        k = 2 if tier == "quick" else 3
+        cases = []
+        for combo in itertools.product(range(len(progs)), repeat=k):
+            if not any(st[0] == "unique" and st[1] == "n1" for ci in combo for st in progs[ci]):
+                continue
+            for starts in itertools.product([0.0, 1.0], repeat=k - 1):
+                tasks = []
+                for j, ci in enumerate(combo):
+                    steps = [list(st) for st in progs[ci]] + [["sleep", 2.0]]
+                    tasks.append({"pid": f"p{j}", "ctx": "a", "start": 0.0 if j == 0 else starts[j - 1], "steps": steps, "deco": False, "dur": 2.0})
+                cases.append({"legacy": len(cases) % 3 == 2, "tasks": tasks, "outside": [], "deco_kill_me": False})
+        return cases
 
     def run(self, case):
         case = json.loads(json.dumps(case))
